@@ -335,7 +335,7 @@ func main() {
 		for _, kind := range []string{"fact", "rule"} {
 			for _, enc := range []string{"expires-num", "expires-rfc3339", "expires-rfc3339-east", "expires-rfc3339-west", "ttl-num", "ttl-dur", "ttl-int64", "ttl-script", "none"} {
 				for _, state := range drv.Kinds {
-					for variant := 0; variant < 5; variant++ {
+					for variant := 0; variant < 6; variant++ {
 						ahead := 3 + g.Intn(2)
 						E := ahead * 1000
 						var steps []string
@@ -349,7 +349,13 @@ func main() {
 							steps = []string{"150:" + a(), "1300:reload", "1450:" + a(), fmt.Sprintf("%d:%s", E+1200, a()), fmt.Sprintf("%d:%s", E+1400, a())}
 						case 1: // reload immediately, reads around E, reload after E
 							steps = []string{"50:reload", "300:" + a(), fmt.Sprintf("%d:%s", E-1500, a()), fmt.Sprintf("%d:reload", E+1100), fmt.Sprintf("%d:%s", E+1300, a()), fmt.Sprintf("%d:%s", E+1500, a())}
-						case 4: // one kind of observation only, nothing else touches the item in between (a rule that
+						case 5: // reload long before the expiry, then one kind of observation only (for rules: dispatch)
+						one := a()
+						if kind == "rule" {
+							one = "dispatch"
+						}
+						steps = []string{"100:reload", "400:" + one, fmt.Sprintf("%d:%s", E+1200, one), fmt.Sprintf("%d:reload", E+1350), fmt.Sprintf("%d:%s", E+1500, one)}
+					case 4: // one kind of observation only, nothing else touches the item in between (a rule that
 							// was dispatched before its expiry sits in the parsed-rule cache when the expiry passes)
 							one := a()
 							if kind == "rule" {
